@@ -51,6 +51,76 @@ def shard_random(col, shard, ngrammars, ninputs):
         col.sample(cases[len(cases) // 2].describe())
 
 
+# ---- AST-shape interactions: every pair / triple of element kinds in one sequence -------------------------
+POOL = [
+    ('tok', 'a'), ('pat', r'\d+'),
+    ('rep', False, None, False, ('tok', 'a')), ('rep', True, None, False, ('tok', 'b')),
+    ('rep', False, ('tok', ','), False, ('tok', 'a')), ('rep', True, ('tok', ','), True, ('tok', 'b')),
+    ('group', ('seq', [('tok', 'b'), ('tok', 'c')])), ('opt', ('seq', [('tok', 'b'), ('tok', 'c')])), ('opt', ('tok', 'b')),
+    ('choice', [('seq', [('tok', 'b'), ('tok', 'c')]), ('tok', 'a')]),
+    ('call', 'lst'), ('call', 'one'), ('call', 'clo'),
+    ('named', False, 'n', ('tok', 'a')), ('named', True, 'm', ('tok', 'b')), ('over', False, ('tok', 'c')),
+    'empty', 'void', ('const', 'k'), ('look', False, ('tok', 'a')), ('skipgroup', ('tok', 'a')),
+    ('named', False, 'n', ('group', ('seq', [('tok', 'b'), ('tok', 'c')]))), ('named', False, 'n', ('rep', False, None, False, ('tok', 'a'))),
+]
+AUX = [('lst', [], ('seq', [('tok', 'a'), ('tok', 'b')])), ('one', [], ('tok', 'a')), ('clo', [], ('rep', False, None, False, ('tok', 'c')))]
+
+
+def shard_shapes(col, shard, nshards, triples_per_shard):
+    import itertools
+    mr = ModelRun('Engine')
+    rng = col.rng
+    seqs = [list(p) for p in itertools.product(POOL, repeat=2)]
+    seqs = [x for i, x in enumerate(seqs) if i % nshards == shard]
+    for _ in range(triples_per_shard):
+        seqs.append([rng.choice(POOL) for _ in range(3)])
+    cases = []
+    for es in seqs:
+        g = {'rules': [('start', [], ('seq', es))] + AUX, 'directives': {}, 'keywords': []}
+        texts = set()
+        for _ in range(4):
+            texts.add(G.join_lexemes(rng, G.sample_sentence(rng, g, g['rules'][0][2]), gaps=(' ',)))
+        full = []
+        for e in es:     # the sentence in which every optional part is present once or twice
+            k = E.kind(e)
+            if k == 'rep':
+                one = G.sample_sentence(rng, g, e[4])
+                sep = G.sample_sentence(rng, g, e[2]) if e[2] is not None else []
+                full += one + sep + one
+            elif k == 'opt':
+                full += G.sample_sentence(rng, g, e[1])
+            else:
+                full += G.sample_sentence(rng, g, e)
+        texts.add(' '.join(full))
+        for t in sorted(texts):
+            cases.append(R.Case(g, t))
+    col.count('shapes.sequences', len(seqs))
+    R.differential(col, mr, cases, 'E1shape', batch=600)
+
+
+# ---- skip-to: targets that do / do not skip whitespace themselves, junk and whitespace before the match ----
+def shard_skipto(col, shard, n):
+    mr = ModelRun('Engine')
+    rng = col.rng
+    targets = [('tok', 'b'), ('pat', 'b'), ('pat', r'\d+'), 'dot', ('call', 'Up'), ('call', 'low'), ('group', ('seq', [('tok', 'b'), ('tok', 'c')])),
+               ('choice', [('pat', r'\d+'), ('tok', 'b')])]
+    aux = [('Up', [], ('pat', r'[bc]')), ('low', [], ('pat', r'[bc]'))]
+    cases = []
+    for _ in range(n):
+        tgt = rng.choice(targets)
+        pre = rng.choice([[], [('tok', 'a')]])
+        post = rng.choice([[], [('tok', 'c')], ['eof']])
+        g = {'rules': [('start', [], ('seq', pre + [('skipto', tgt)] + post))] + aux, 'directives': {}, 'keywords': []}
+        if rng.random() < 0.25:
+            g['directives']['whitespace'] = rng.choice(['[ ]+', '[\\t ]+'])
+        for _k in range(6):
+            junk = ''.join(rng.choice(['z', 'x ', ' ', '\n', '9', 'q', '  ', 'a']) for _ in range(rng.randint(0, 5)))
+            hit = rng.choice(['b', ' b', 'b c', '42', ' 42', '\n42', 'bc', ' b c', '', 'c'])
+            text = ('a ' if pre and rng.random() < 0.8 else '') + junk + hit + rng.choice(['', ' ', ' c', 'c'])
+            cases.append(R.Case(g, text))
+    R.differential(col, mr, cases, 'E1skipto', batch=600)
+
+
 LEAVES = [('tok', 'a'), ('tok', 'b'), 'cut', 'void', 'eof']
 
 
@@ -99,15 +169,23 @@ def main():
         if chk.quick:
             vlib.run_sharded(chk, shard_random, 14, extra=(10, 10))
             vlib.run_sharded(chk, shard_exhaustive, 14, extra=(14, 3, 3))
+            vlib.run_sharded(chk, shard_shapes, 14, extra=(14, 25))
+            vlib.run_sharded(chk, shard_skipto, 14, extra=(12,))
         else:
             vlib.run_sharded(chk, shard_random, 28, extra=(60, 14))
             vlib.run_sharded(chk, shard_exhaustive, 28, extra=(28, 4, 4))
+            vlib.run_sharded(chk, shard_shapes, 28, extra=(28, 400))
+            vlib.run_sharded(chk, shard_skipto, 28, extra=(120,))
             chk.exhaustive = True
         bad = [v for v in chk.violations if v['signature'].startswith('E1')]
         chk.obligation('E1: tatsu.compile(g).parse(t) vs modelrun eval (random)', 'correspondence',
                        not any(v['signature'].startswith('E1:') for v in chk.violations))
         chk.obligation('E1x: exhaustive small scope', 'correspondence',
                        not any(v['signature'].startswith('E1x:') for v in chk.violations))
+        chk.obligation('E1shape: every pair (and sampled triples) of element kinds in one sequence', 'correspondence',
+                       not any(v['signature'].startswith('E1shape:') for v in chk.violations))
+        chk.obligation('E1skipto: skip-to targets with junk and whitespace before the match', 'correspondence',
+                       not any(v['signature'].startswith('E1skipto:') for v in chk.violations))
     return chk.finish()
 
 
